@@ -20,7 +20,9 @@
 (* A plain array has exactly one field.  kinds[i] is "M" (multi-byte numeric),     *)
 (* "B" (single-byte numeric), "S" (byte string) or "N" (a nested record holding a   *)
 (* multi-byte member and a byte-string member: decl / phys are those of the          *)
-(* multi-byte member, phys is "corrupt" when the string member changed).            *)
+(* multi-byte member, phys is "corrupt" when the string member changed) or "U" (a    *)
+(* unicode string: numpy stores 4-byte code points, so unlike a byte string it HAS a  *)
+(* byte order and is converted like any multi-byte field).                            *)
 (* An element of field i has its logical value  <=>  Resolve(decl[i]) = phys[i].   *)
 (*                                                                                 *)
 (* MEMORY LAYOUT.  The array handed to a conversion need not own a C-contiguous     *)
@@ -72,7 +74,7 @@ EXTENDS VU
 
 CONSTANT MachineLE          \* TRUE on a little-endian machine
 
-BOKinds  == {"M", "B", "S", "N"}
+BOKinds  == {"M", "B", "S", "N", "U"}
 BOLayouts == {"contig", "slice", "strided", "reversed", "column", "fortran", "zerod", "recview"}
 BOSpells == {"<", ">", "=", "|"}
 BOFns    == {"native", "big", "little", "swap", "rnative"}   \* rnative = recfile.Util.to_native_inplace
@@ -85,7 +87,7 @@ BOFlip(p)     == IF p = "<" THEN ">" ELSE IF p = ">" THEN "<" ELSE p
 
 \* what a dtype built with order character sp declares for a field of kind k
 \* ("|" on a multi-byte type means "machine order"; any character on a one-byte type means "|")
-BOMultiKinds == {"M", "N"}
+BOMultiKinds == {"M", "N", "U"}
 BODeclOf(k, sp) == IF k \notin BOMultiKinds THEN "|" ELSE IF sp = "|" THEN BONative ELSE BOResolve(sp)
 
 BOIsMulti(kinds, i) == kinds[i] \in BOMultiKinds
@@ -259,6 +261,8 @@ BODescrFailing(kinds, s) ==
 \*   NestedDetect = FALSE: a nested record reports "|" (numpy's byteorder of a void type), so its
 \*                         members' order is never seen by the detection;
 \*   NestedDetect = TRUE : the detection descends into nested records.
+\*   UnicodeDetect = FALSE: a deviating variant whose detection takes every string field, unicode too, for
+\*                         a field without byte order;   UnicodeDetect = TRUE : unicode fields count (the code as it is).
 \*   RetypeAlways = TRUE : the new dtype is assigned to the swapped object whatever its layout
 \*                         (the code as it is);
 \*   RetypeAlways = FALSE: a deviating variant that assigns .dtype only to C-/F-contiguous arrays and
@@ -269,8 +273,8 @@ BODescrFailing(kinds, s) ==
 \*                         has changed;
 \*   SwapFirst = FALSE   : a deviating variant of numpy_util.byteswap that, in place, assigns the dtype
 \*                         first: the refused swap leaves the new dtype over unswapped bytes.
-BOMechDoSwap(kinds, v, fn, FixedDetect, NestedDetect) ==
-    LET D(i) == IF kinds[i] = "N" /\ ~NestedDetect THEN "|" ELSE BOResolve(v.decl[i])
+BOMechDoSwap(kinds, v, fn, FixedDetect, NestedDetect, UnicodeDetect) ==
+    LET D(i) == IF (kinds[i] = "N" /\ ~NestedDetect) \/ (kinds[i] = "U" /\ ~UnicodeDetect) THEN "|" ELSE BOResolve(v.decl[i])
         F    == IF FixedDetect THEN {i \in DOMAIN kinds : D(i) # "|"} ELSE DOMAIN kinds
     IN IF fn \in {"native", "rnative"}
          THEN LET dataLittle == \E i \in DOMAIN kinds : D(i) = "<" IN MachineLE # dataLittle
@@ -278,17 +282,17 @@ BOMechDoSwap(kinds, v, fn, FixedDetect, NestedDetect) ==
        ELSE IF fn = "little" THEN \E i \in F : D(i) # "<"
        ELSE TRUE
 
-BOMechConvert(kinds, v, fn, keep, FixedDetect, NestedDetect) ==
-    IF BOMechDoSwap(kinds, v, fn, FixedDetect, NestedDetect)
+BOMechConvert(kinds, v, fn, keep, FixedDetect, NestedDetect, UnicodeDetect) ==
+    IF BOMechDoSwap(kinds, v, fn, FixedDetect, NestedDetect, UnicodeDetect)
     THEN [decl |-> [i \in DOMAIN kinds |-> IF keep THEN BOResolve(v.decl[i]) ELSE BOFlip(BOResolve(v.decl[i]))],   \* newbyteorder(): "|" stays
           phys |-> [i \in DOMAIN kinds |-> BOFlip(v.phys[i])]]                                                    \* byteswap(): "|" stays
     ELSE [decl |-> [i \in DOMAIN kinds |-> BOResolve(v.decl[i])], phys |-> v.phys]
 
 \* one call seen as objects: what is returned (decl, phys), whether it IS the argument, and the
 \* dtype the argument object has afterwards
-BOMechStep(kinds, contiguous, writable, v, op, FixedDetect, NestedDetect, RetypeAlways, SwapFirst) ==
-    LET sw     == BOMechDoSwap(kinds, v, op.fn, FixedDetect, NestedDetect)
-        c      == BOMechConvert(kinds, v, op.fn, op.keep, FixedDetect, NestedDetect)
+BOMechStep(kinds, contiguous, writable, v, op, FixedDetect, NestedDetect, UnicodeDetect, RetypeAlways, SwapFirst) ==
+    LET sw     == BOMechDoSwap(kinds, v, op.fn, FixedDetect, NestedDetect, UnicodeDetect)
+        c      == BOMechConvert(kinds, v, op.fn, op.keep, FixedDetect, NestedDetect, UnicodeDetect)
         viewed == sw /\ op.inplace /\ ~op.keep /\ ~RetypeAlways /\ ~contiguous /\ op.fn # "rnative"
         old    == [i \in DOMAIN kinds |-> BOResolve(v.decl[i])]
         refused == sw /\ op.inplace /\ ~writable                        \* ndarray.byteswap(True) raises
